@@ -23,7 +23,7 @@ def harnesses(tier, findings):
             rc.sink_unit(H, VERIF, 0, 2, 2, polls=2, envmax=5, tag="k2", timeout=3500),
             rc.start_flags(H, VERIF, 1), rc.start_flags(H, VERIF, 2), rc.start_flags(H, VERIF, 3),
             rc.inst(H, VERIF, 2, 2, 1, 0, 1, excl=excl), rc.inst(H, VERIF, 2, 2, 0, 0, 1, excl=excl), rc.inst(H, VERIF, 2, 3, 1, 0, 1, ring=4, excl=excl, timeout=3000),
-            rc.api(H, VERIF, 2, 1, 2, 3, 3000, name="api_two_streams")] + gch()
+            rc.api(H, VERIF, 2, 1, 2, 3, 3000, name="api_two_streams_mf7", excludes=["P2MASK=%d" % 0xF7]), rc.api(H, VERIF, 2, 1, 2, 3, 3000, name="api_two_streams_mb3", excludes=["P2MASK=%d" % 0xB3])] + gch()
 
 META = dict(
     level="model_checking",
